@@ -7,3 +7,8 @@ open Biogo.Properties.C07
 #print axioms subseq_exact
 #print axioms append_exact_aln
 #print axioms append_no_retain_aln
+#print axioms builtin_consensus_facts
+#print axioms unanimous_consensus
+#print axioms delete_exact_aln
+#print axioms delete_exact_multi
+#print axioms append_each_exact_aln
